@@ -235,7 +235,7 @@ def step (s : Sess) (line : String) : Sess × String :=
     match parseCon s rest with
     | none => (s, "bad-op")
     | some c =>
-      let (st', r) := s.st.assign c
+      let (st', r) := s.st.assign c.construct
       match r with
       | .const cst =>
         let (st'', v) := State.resultVar (st', r)
